@@ -352,7 +352,15 @@ func init() {
 				}
 			}
 			// (c) deviations of K
-			for _, src := range gen.Core() {
+			devBase := gen.Core()
+			if c.Quick() {
+				// quick: the families that differ in identifiers only are run as they are, not deviated
+				devBase = gen.CoreBase()
+				for _, src := range gen.Core() {
+					do(src, 0)
+				}
+			}
+			for _, src := range devBase {
 				gen.Deviations(src, c06Toks, c06Bytes, func(d string) bool {
 					do(d, 0)
 					return do(d, 1<<30)
